@@ -331,10 +331,10 @@ def run(ck, ix, tier):
                      f"stored under the looked-up key `{norm(k)}`",
                      f"stored under `{norm(k)}` but looked up with `{norm(s.lookup_key)}`" + (f"; {re} reassigned" if re else ""))
             # value canonical: built from a comprehension with a !=0 filter; '[]' removed before
-            vv = defs_of(fi).inline(v)
-            comp = [c for c in ast.walk(vv) if isinstance(c, (ast.DictComp, ast.GeneratorExp, ast.ListComp))]
-            zero_filtered = any(any("!= 0" in norm(i) or "!=0" in norm(i) for i in g.ifs) or any(norm(i) in ("v", "value") for i in g.ifs)
-                                for c in comp for g in c.generators)
+            from .. import shape as _shz
+            vv = _shz.unalias(v, fi.node)
+            ef = _shz.entry_facts(fi.node, vv.args[0] if isinstance(vv, ast.Call) and vv.args else vv)
+            zero_filtered = ef is not None and (("V == 0", False) in ef[0] or ("V", True) in ef[0])
             ck.check(zero_filtered, "G-CANON", "dimensionality|zero-exponents-filtered", fi.loc(st),
                      "zero exponents are filtered out of the stored dimensionality",
                      "the stored dimensionality can keep zero-exponent entries (no `!= 0` filter)")
